@@ -127,10 +127,12 @@ structure Table where
   led : Kind → Led
   /-- name of the `Node…` constant (ties the token to its runtime) -/
   node : Kind → String
-  /-- `ndPrefix`: `p.run(self.binding + prefixExtra)` -/
+  /-- `ndPrefix`: `p.run(self.binding + prefixExtra - prefixSub)` -/
   prefixExtra : Nat
-  /-- `ldInfix`: `p.run(self.binding + infixExtra)` -/
+  prefixSub : Nat
+  /-- `ldInfix`: `p.run(self.binding + infixExtra - infixSub)` -/
   infixExtra : Nat
+  infixSub : Nat
   /-- `ndInner`: `p.run(innerBinding)` -/
   innerBinding : Nat
   /-- `ndList`: `p.run(listBinding)` -/
@@ -221,7 +223,7 @@ def run (T : Table) : Nat → Nat → List LTok → PRes (Expr × Nat × List LT
       if T.nud tk.kind = .pre then
         match preOf tk with
         | some (p, txt) =>
-          (match run T f (T.binding tk.kind + T.prefixExtra) ts with
+          (match run T f (T.binding tk.kind + T.prefixExtra - T.prefixSub) ts with
            | .ok (x, _, ts1) => loop T f m (.pre p txt x) t.line ts1
            | .error x => .error x)
         | none => .error .unsupported
@@ -238,7 +240,7 @@ def loop (T : Table) : Nat → Nat → Expr → Nat → List LTok → PRes (Expr
       else if T.led t.tk.kind = .infix then
         match t.tk with
         | .op o txt =>
-          (match run T f (T.binding (.op o) + T.infixExtra) ts with
+          (match run T f (T.binding (.op o) + T.infixExtra - T.infixSub) ts with
            | .ok (r, _, ts1) => loop T f m (.bin o txt left r) t.line ts1
            | .error x => .error x)
         | _ => .error .unsupported
@@ -282,7 +284,7 @@ section Rel
 variable (T : Table)
 
 def bp (o : BinOp) : Nat := T.binding (.op o)
-def pbp (p : PreOp) : Nat := T.binding (preKind p) + T.prefixExtra
+def pbp (p : PreOp) : Nat := T.binding (preKind p) + T.prefixExtra - T.prefixSub
 
 def lbp : List TK → Nat
   | t :: _ => T.binding t.kind
